@@ -301,6 +301,17 @@ def gen_spec(rng, idx):
             else:
                 defs.append([name, k])
         spec[c] = {"mode": gen_mode(rng, kinds), "defs": defs}
+    # make declared range / int variables really shared (>= 2 occurrences) most of the time
+    slots = [(c, i) for c in ("operand", "result") for i, x in enumerate(spec[c]["defs"]) if x[1] == "var"] + \
+            [("region", i) for i, x in enumerate(spec["region"]["defs"])]
+    for names, mk in ((ivars, lambda n, old: ["rangelen", ["rangeof", _elem_tree(old) or ["any"]], ["ivar", n]]),
+                      (rvars, lambda n, old: ["rangevar", n])):
+        for n in names:
+            if rng.random() < .75 and len(slots) >= 2:
+                for c, i in rng.sample(slots, 2):
+                    x = spec[c]["defs"][i]
+                    k = 3 if c == "region" else 2
+                    x[k] = mk(n, x[k])
     for which, pre in (("props", "p"), ("attrs", "a")):
         out = []
         for i in range(rng.choice([0, 1, 1, 2, 3])):
@@ -545,7 +556,29 @@ def perturb(spec, inst, rng):
         choices += ["segvec"] * 7
     if spec["vars"] or spec["rvars"]:
         choices += ["retype"] * 2
+    if any(x[1] != "single" for c in ("operand", "result") for x in spec[c]["defs"]):
+        choices += ["resize-seg"] * 4
     what = rng.choice(choices)
+    if what == "resize-seg":
+        # grow / shrink ONE variadic segment and keep the segment vector in step: only shared int / range
+        # variables, length constraints, optional-ness and same-size rules can object
+        c = rng.choice([c for c in ("operand", "result") if any(x[1] != "single" for x in spec[c]["defs"])])
+        st = R.ref_verify(spec, inst)["segs"].get(c)
+        if st is None:
+            return inst, "resize-seg-skipped"
+        j = rng.choice([j for j, x in enumerate(spec[c]["defs"]) if x[1] != "single"])
+        seg = st[j]
+        grow = rng.random() < .6 or not seg
+        pos = (seg[-1] + 1) if seg else sum(len(x) for x in st[:j])
+        if grow:
+            inst[c].insert(pos, inst[c][seg[-1]] if seg and rng.random() < .7 else rng.choice(R.TYPE_NAMES))
+        else:
+            inst[c].pop(pos - 1)
+        if R.seg_mode(spec[c]["mode"]) == "attr":
+            v = (inst["props"] if spec[c]["mode"] == "prop" else inst["attrs"]).get(SEG_ATTR[c])
+            if isinstance(v, list) and len(v[2]) > j:
+                v[2][j] += 1 if grow else -1
+        return inst, "resize-seg:" + c
     if what in ("add", "remove"):
         c = rng.choice([c for c in CONSTRUCTS if spec[c]["defs"]] or list(CONSTRUCTS))
         if c == "successor":
@@ -1098,6 +1131,9 @@ def work_gen(job, out):
                 out.inc(f"defs_multi_variadic_{c}_{spec[c]['mode']}")
         if R.shared_vars(spec):
             out.inc("definitions_with_shared_variable")
+            for ns in {v[0] for v in R.shared_vars(spec)}:
+                out.inc({"a": "definitions_sharing_attr_var", "r": "definitions_sharing_range_var",
+                         "i": "definitions_sharing_int_var"}[ns])
         if spec.get("inherit"):
             out.inc("definitions_with_inherited_fields")
         d = cls.get_irdl_definition()
